@@ -1080,19 +1080,24 @@ func expandPhis(e ExitPoint, depth int) []ExitPoint {
 				feasible = false
 			}
 		}
+		// every phi of the merge takes the operand of the same edge: a nil test on a sibling of the results ("ws == nil"
+		// where ws, err are assigned together) selects alternatives as well
+		for pv, n := range nilness {
+			ev := pv.(*ssa.Phi).Edges[j]
+			switch n {
+			case 1:
+				if IsNilConst(ev) {
+					feasible = false
+				}
+			case -1:
+				if knownNonNil(ev) || derefBefore(ev, pred) {
+					feasible = false
+				}
+			}
+		}
 		for i, v := range e.Results {
 			if p, ok := v.(*ssa.Phi); ok && p.Block() == phiBlock {
 				rs[i] = p.Edges[j]
-				switch nilness[p] {
-				case 1:
-					if IsNilConst(rs[i]) {
-						feasible = false
-					}
-				case -1:
-					if knownNonNil(rs[i]) {
-						feasible = false
-					}
-				}
 			} else {
 				rs[i] = v
 			}
@@ -1183,8 +1188,33 @@ func sortExitPoints(l []ExitPoint) {
 }
 
 // knownNonNil: a load of a package-level error variable, the result of fmt.Errorf / errors.New, or a MakeInterface.
+// derefBefore: the pointer v has been dereferenced (field address, load, store through it) by an instruction that every
+// execution reaching the end of blk has passed - had v been nil, that execution would have panicked there.
+func derefBefore(v ssa.Value, blk *ssa.BasicBlock) bool {
+	if _, isPtr := v.Type().Underlying().(*types.Pointer); !isPtr || v.Referrers() == nil {
+		return false
+	}
+	for _, r := range *v.Referrers() {
+		ok := false
+		switch x := r.(type) {
+		case *ssa.FieldAddr:
+			ok = x.X == v
+		case *ssa.UnOp:
+			ok = x.Op == token.MUL && x.X == v
+		case *ssa.Store:
+			ok = x.Addr == v
+		}
+		if ok && (r.Block() == blk || r.Block().Dominates(blk)) {
+			return true
+		}
+	}
+	return false
+}
+
 func knownNonNil(v ssa.Value) bool {
 	switch x := v.(type) {
+	case *ssa.Alloc:
+		return true
 	case *ssa.UnOp:
 		if _, ok := x.X.(*ssa.Global); ok && x.Op == token.MUL {
 			return true
